@@ -4,14 +4,15 @@ from . import _histcheck
 
 PROPERTY = 'C10'
 LEVEL = 'exploration'
-RULE = ('per element-content type: core = every <=1 addition (thorough <=2 for alphabets <=10) (and every [addition, serialisation with either flag, one change of that child, serialisation]) followed by one removal / replacement (own and foreign name, by object and by predicate) / forward addition (valid, past the maximum, out of range, negative) / shortcut / serialisation, and every sequence of <=2 additions (<=3 for alphabets <=12; failures at maxOccurs, exclusive choices, after duplication); halo = failure-biased seeded histories. Plus, for every element class, refused value_ and attribute assignments (objects, containers, out-of-space strings and numbers) bracketed by snapshots of value, attributes and serialisation. Only histories in which some operation raised are judged (others count as trivial). distinct = distinct operation string')
+RULE = ('per element-content type: core = every <=1 addition (thorough <=2 for alphabets <=10) (and every [addition, serialisation with either flag, one change of that child, serialisation]) followed by one removal / replacement (own and foreign name, by object and by predicate) / forward addition (valid, past the maximum, out of range, negative) / shortcut / serialisation, and every sequence of <=2 additions (<=3 for alphabets <=12; failures at maxOccurs, exclusive choices, after duplication); halo = failure-biased seeded histories. Plus, for every element class, refused value_ and attribute assignments (objects, containers, out-of-space strings and numbers) bracketed by snapshots of value, attributes and serialisation; and for every type, every word <=2 and a shortest valid word: each child, while attached to the receiver itself or to another element, offered again (add_child, forward 0 / 1 / 7, xml_ shortcut): a refusal must leave receiver, holder and parent link as they were. Only histories in which some operation raised are judged (others count as trivial). distinct = distinct operation string')
 ASSUMPTIONS = ['reference DFAs built from /verif/ref/musicxml_4_0.xsd are the schema (self-tested, cross-checked by C03)', 'children are minimal unchecked instances so only the parent level is judged; parents carry their schema-required attributes', 'witnesses are shrunk by delta debugging before classification; beyond a fixed number per pre-signature they are only counted']
 TIMEOUT = {'quick': 900, 'thorough': 5400}
 PROPS = ('C10',)
 
 
 def plan(tier, seed):
-    return [{'mode': 'assign', 'slice': i, 'cost': 2000} for i in range(4)] + _histcheck.plan(lambda t: (genhist.n_core_additions(t, 2) + genhist.n_core_mixed(t, 1 if tier == 'quick' or len(ref.DFAS[t].alphabet) > 10 else 2) + 400) * max(1, len(ref.DFAS[t].alphabet) // 3))
+    return [{'mode': 'assign', 'slice': i, 'cost': 2000} for i in range(4)] + \
+        [{'mode': 'attached', 'slice': i, 'cost': 1500} for i in range(4)] + _histcheck.plan(lambda t: (genhist.n_core_additions(t, 2) + genhist.n_core_mixed(t, 1 if tier == 'quick' or len(ref.DFAS[t].alphabet) > 10 else 2) + 400) * max(1, len(ref.DFAS[t].alphabet) // 3))
 
 
 def run_assign(shard, tier, seed):
@@ -74,9 +75,90 @@ def run_assign(shard, tier, seed):
             'samples': [{'class': 'XMLOctave', 'assign': 'value_', 'bad': "'@@bad@@'"}], 'counters': dict(c)}
 
 
+def run_attached(shard, tier, seed):
+    """a child that is ALREADY attached (to the receiving element itself, or to another element) is offered with add_child /
+    add_child(forward=) / the xml_ shortcut: where the call raises, the receiver and the element that holds the child must be
+    as they were (views, parent link, serialisation or verdict). Calls that are accepted are outside this shard (counted)."""
+    import collections
+    from .. import lib, hist
+    viol = []
+    evals = 0
+    nontriv = 0
+    c = collections.Counter()
+    types = sorted(ref.DFAS)
+
+    def state(e):
+        return (hist.snapshot(e), lib.verdict(e), tuple(id(k.get_parent()) for k in e.get_children(False)))
+
+    def build(cls, w):
+        e = lib.make(cls, check=True, with_required=True)
+        kids = []
+        for s_ in w:
+            k = lib.make(lib.child_cls(s_))
+            if lib.call(e.add_child, k)[0] == 'exc':
+                return None, None
+            kids.append(k)
+        return e, kids
+    for t in [x for i, x in enumerate(types) if i % 4 == shard['slice']]:
+        d = ref.DFAS[t]
+        cls = lib.TYPES[t]
+        words = [w for w in d.words(2, limit=60 if tier == 'quick' else 400) if w]
+        if ref.shortest_word(t):
+            words.append(tuple(ref.shortest_word(t)))
+        seen = set()
+        for w in words:
+            if w in seen:
+                continue
+            seen.add(w)
+            for i in range(len(w)):
+                for how in ('add', 'add-forward-0', 'add-forward-1', 'add-forward-7', 'shortcut'):
+                    for holder in ('self', 'other'):
+                        R, kids = build(cls, w)
+                        if R is None:
+                            break
+                        if holder == 'other':
+                            # the child sits in ANOTHER element of the same class; the receiver holds the same word
+                            D = R
+                            R, _ = build(cls, w)
+                            if R is None:
+                                break
+                        else:
+                            D = R
+                        k = kids[i]
+                        before_R, before_D = state(R), state(D)
+                        evals += 1
+                        if how == 'shortcut':
+                            r = lib.call(setattr, R, 'xml_' + k.name.replace('-', '_'), k)
+                        elif how == 'add':
+                            r = lib.call(R.add_child, k)
+                        else:
+                            r = lib.call(R.add_child, k, int(how.rsplit('-', 1)[1]))
+                        if r[0] == 'ok':
+                            c['attached_child_accepted'] += 1
+                            continue
+                        nontriv += 1
+                        c['attached_child_refused'] += 1
+                        what = []
+                        if state(R) != before_R:
+                            what.append('receiver')
+                        if D is not R and state(D) != before_D:
+                            what.append('holder')
+                        if k.get_parent() is not D:
+                            what.append('parent-link')
+                        if what:
+                            viol.append({'sig': {'type': t, 'kind': 'refused-offer-of-attached-child-changed:' + '+'.join(what),
+                                                 'how': how.split('-')[0], 'held_by': holder, 'exc': type(r[1]).__name__},
+                                         'case': {'type': t, 'word': list(w), 'child': i, 'how': how, 'holder': holder},
+                                         'detail': {'msg': str(r[1])[:120]}})
+    return {'evaluations': evals, 'distinct_nontrivial': nontriv, 'violations': viol,
+            'samples': [{'type': 'pitch', 'word': ['step', 'octave'], 'offered': 'own child step, forward=1'}], 'counters': dict(c)}
+
+
 def run_shard(shard, tier, seed):
     if shard.get('mode') == 'assign':
         return run_assign(shard, tier, seed)
+    if shard.get('mode') == 'attached':
+        return run_attached(shard, tier, seed)
     t = shard['type']
     n = genhist.nadd_for(t, tier)
     m = 1 if tier == 'quick' or len(ref.DFAS[t].alphabet) > 10 else 2
@@ -86,6 +168,10 @@ def run_shard(shard, tier, seed):
 
 
 def replay_case(rp):
+    if 'holder' in rp['case']:
+        res = run_attached({'slice': sorted(ref.DFAS).index(rp['case']['type']) % 4}, 'quick', 0)
+        mine = [v for v in res['violations'] if v['case'] == rp['case']]
+        return {'violated': bool(mine), 'violations': [m['sig'] for m in mine[:3]]}
     if 'assign' in rp['case']:
         from .. import lib
         res = run_assign({'slice': sorted(lib.CLASSES).index(rp['case']['cls']) % 4}, 'quick', 0)
